@@ -31,6 +31,8 @@ class State:
         self.lowered = {}        # fn name -> bool
         self.last_text = {}      # fn name -> text after the previous pass on this fn
         self.current_pass = None
+        self.ctx_fns = {}        # id(IRContext) -> {function name: hash of its current text}
+        self.texts = {}          # hash -> function text
         self.want_live = False   # record LivenessAnalysis results (function text + tables)
         self.live_obs = []       # dict(fn, phase, text, tables{label: (per-instruction live sets, out set)})
         self.live_seen = set()
@@ -142,6 +144,25 @@ def _recorded(st, orig, name, self, a, k):
            "h_before": hashlib.sha1(before.encode()).hexdigest()[:12], "h_after": hashlib.sha1(after.encode()).hexdigest()[:12]}
     if st.keep_text:
         rec["before"], rec["after"] = before, after
+        # the other functions of the context as they are while this pass runs (callees / the caller `runtime`)
+        ctx = fn.ctx if fn is not None else self.ctx
+        fmap = st.ctx_fns.get(id(ctx))
+        if fmap is None or fn is None:
+            fmap = {}
+            for f in ctx.functions.values():
+                t = snap_text(f, f) if (fn is None or f is not fn) else before
+                h = hashlib.sha1(t.encode()).hexdigest()[:16]
+                st.texts[h] = t
+                fmap[str(f.name)] = h
+            st.ctx_fns[id(ctx)] = fmap
+        if fn is not None:
+            rec["ctx"] = {n: h for n, h in fmap.items() if n != fname}
+            if changed:
+                h = hashlib.sha1(after.encode()).hexdigest()[:16]
+                st.texts[h] = after
+                fmap[fname] = h
+        else:
+            st.ctx_fns.pop(id(ctx), None)          # a context-level pass may change every function: re-read next time
     st.snaps.append(rec)
     if fn is not None:
         if name == "MakeSSA":
